@@ -62,7 +62,7 @@ class Sim:
         self.orch = orch
         self.root = root
         self.cfg = cfg
-        self.outdir = os.path.join(root, "out")
+        self.outdir = os.path.join(root, cfg.get("outdir_name", "out"))
         self.screen = os.path.join(root, "input.screen.h5")
         with open(self.screen, "w") as f:
             json.dump({"unobserved": list(range(cfg["plates"])), "lineage": "root%d" % cfg["plates"]}, f)
@@ -101,8 +101,8 @@ class Sim:
 
     def completed_steps(self):
         out = set()
-        for p in globmod.glob(os.path.join(self.outdir, "iter_*", "plate_*")):
-            if globmod.glob(os.path.join(p, "*", "screen_metadata.json")) and globmod.glob(os.path.join(p, "*", "selected_plate")):
+        for p in globmod.glob(os.path.join(globmod.escape(self.outdir), "iter_*", "plate_*")):
+            if globmod.glob(os.path.join(globmod.escape(p), "*", "screen_metadata.json")) and globmod.glob(os.path.join(globmod.escape(p), "*", "selected_plate")):
                 out.add(step_of(p))
         return out
 
@@ -191,7 +191,23 @@ class Sim:
         files = {}  # name -> (deps, producer)
         state = {}
 
+        staged = [a[k] for k in ("screen", "training_screen", "test_screen") if a.get(k) and os.path.exists(a[k])]
+
         def publish(fn, text):
+            # a task works in its own directory below the run's work directory: its inputs are staged there under
+            # their base names, its output is written there (<task dir>/<name>/<file>) and only then published
+            h = H("%s|%r" % (fn, step))
+            tdir = os.path.join(outdir, "work", h[:2], h[2:32])
+            os.makedirs(os.path.join(tdir, name), exist_ok=True)
+            for src in staged:
+                with open(os.path.join(tdir, os.path.basename(src)), "wb") as f:
+                    f.write(read(src))
+            with open(os.path.join(tdir, ".command.sh"), "w") as f:
+                f.write("# " + fn)
+            self.failpoint("stub:task-started:" + fn)
+            with open(os.path.join(tdir, name, fn), "w") as f:
+                f.write(text)
+            self.failpoint("stub:task-output:" + fn)
             os.makedirs(pub, exist_ok=True)
             with open(os.path.join(pub, fn), "w") as f:
                 f.write(text)
@@ -446,6 +462,9 @@ def run_to_completion(drv, sim, target_steps, crashes, max_invocations, seen=Non
 def reference(drv, root, cfg):
     sim = Sim(drv.orch, root, cfg)
     drv.bind(sim)
+    # an uninterrupted execution launches the pipeline once per step; a run that launches it many times more often
+    # than there are steps is not progressing (the cap is far above anything a correct script needs)
+    sim.max_launches = 4 * (cfg["plates"] + cfg["batch"] * (cfg.get("invocations", 1) + 2)) + 10
     total_hits = []
     events = []
     n_inv = 1 if cfg["mode"] == "retrospective" else cfg["invocations"]
@@ -533,6 +552,31 @@ def judge(rec, cfg, ref, sim, events, label, w):
     return ok
 
 
+def judge_reference(rec, cfg, ref, w):
+    key = "C19/%s" % cfg["mode"]
+    rec.count("oracle_evals")
+    rec.count("uninterrupted_runs_judged")
+    b = cfg["batch"]
+    expected = (0, 0)
+    for l in ref["launches"]:
+        if l.get("completed_before_launch"):
+            rec.violation(key + "/completed-step-executed-again", "the uninterrupted run launched step %r although it was already complete" % (l["step"],), w)
+            return
+        if l["step"] != expected:
+            rec.violation(key + "/step-skipped-or-missing", "the uninterrupted run launched step %r where step %r is due" % (l["step"], expected), w)
+            return
+        expected = (expected[0], expected[1] + 1) if expected[1] + 1 < b else (expected[0] + 1, 0)
+    for d in ref["deletions"]:
+        p = d["path"].split(os.sep)
+        hit = [s for s in d["completed_at_that_time"] if (len(p) >= 2 and p[0] == "iter_%d" % s[0] and p[1] == "plate_%d" % s[1]) or (len(p) == 1 and p[0] == "iter_%d" % s[0]) or p == ["."]]
+        if hit:
+            rec.violation(key + "/completed-step-deleted", "the uninterrupted run deleted %s which holds completed step(s) %r" % (d["path"], hit), w)
+            return
+
+
+OUTDIR_NAMES = ["run[1]", "lab [2024-03] out", "out[a-z]", "res*lts", "what?", "screens[v2]" + os.sep + "out"]
+
+
 def configurations(tier, rng):
     cfgs = []
     if tier == "quick":
@@ -551,6 +595,9 @@ def configurations(tier, rng):
             cfgs.append({"mode": "prospective", "plates": max(6, b + 2), "batch": b, "invocations": k, "n_chains": 1 + (b + os_) % 2, "n_chunks": 1 + (k + os_) % 2, "order_seed": os_})
     for i, c in enumerate(cfgs):
         c["relative_paths"] = bool(i % 2)  # every second configuration names the screen and the output directory relative to the working directory
+        if i % 4 >= 2:
+            # output directories whose names carry characters that mean something to a file-name pattern
+            c["outdir_name"] = OUTDIR_NAMES[(i // 4) % len(OUTDIR_NAMES)]
     return cfgs
 
 
@@ -572,9 +619,8 @@ def run_shard(rec, tier, seed, shard, nshards):
                     continue
                 if shard == ci % nshards:
                     rec.count("configurations")
-                    # sanity of the reference run itself
-                    for d in ref["deletions"]:
-                        pass
+                    # the uninterrupted run is itself an execution the property speaks about
+                    judge_reference(rec, cfg, ref, w0)
                 target = len(ref["completed"])
                 max_inv = 6 * target + 12
                 n_inv = len(ref["hits"])
@@ -650,7 +696,7 @@ class LogSim:
 
     def __init__(self, root, cfg, log):
         self.root, self.cfg = root, cfg
-        self.outdir = os.path.join(root, "out")
+        self.outdir = os.path.join(root, cfg.get("outdir_name", "out"))
         self.log = log
         self.deletions = []
 
@@ -680,6 +726,7 @@ def subprocess_scenarios(rec, rng, shard, nshards):
         {"mode": "prospective", "plates": 6, "batch": 2, "invocations": 2, "n_chains": 1, "n_chunks": 1, "order_seed": 5},
         {"mode": "retrospective", "plates": 5, "batch": 3, "n_chains": 2, "n_chunks": 1, "order_seed": 6},
         {"mode": "prospective", "plates": 6, "batch": 3, "invocations": 2, "n_chains": 1, "n_chunks": 2, "order_seed": 6},
+        {"mode": "retrospective", "plates": 3, "batch": 2, "n_chains": 1, "n_chunks": 1, "order_seed": 7, "outdir_name": "run[1]"},
     ]
 
     def invoke(root, cfg, kill_at):
@@ -688,7 +735,7 @@ def subprocess_scenarios(rec, rng, shard, nshards):
         if os.path.exists(env["VF_C19_COUNTER"]):
             os.remove(env["VF_C19_COUNTER"])
         LogSim(root, cfg, env["VF_C19_LOG"]).operator_brings_lab_results()
-        p = subprocess.run([sys.executable, "-B", script, "--mode", cfg["mode"], "--screen", os.path.join(root, "input.screen.h5"), "--batch-size", str(cfg["batch"]), "--outdir", os.path.join(root, "out"), "--n_chains", str(cfg["n_chains"])], env=env, stdout=subprocess.PIPE, stderr=subprocess.PIPE, timeout=300)
+        p = subprocess.run([sys.executable, "-B", script, "--mode", cfg["mode"], "--screen", os.path.join(root, "input.screen.h5"), "--batch-size", str(cfg["batch"]), "--outdir", os.path.join(root, cfg.get("outdir_name", "out")), "--n_chains", str(cfg["n_chains"])], env=env, stdout=subprocess.PIPE, stderr=subprocess.PIPE, timeout=300)
         hits = int(open(env["VF_C19_COUNTER"]).read()) if os.path.exists(env["VF_C19_COUNTER"]) else 0
         err = p.stderr.decode("utf-8", "replace")
         if p.returncode == 0:
